@@ -234,6 +234,27 @@ def _templates():
     add("conv2d", 1, lambda v: v[0].dtype == torch.float32 and v[0].dim() == 4 and v[0].shape[1] in (2, 3, 4) and min(v[0].shape[-2:]) >= 3, lambda v, m: F.conv2d(v[0], m.W4(2, v[0].shape[1], 3), m.B(2), padding=1), "padding=1")
     add("conv2d_groups", 1, lambda v: v[0].dtype == torch.float32 and v[0].dim() == 4 and v[0].shape[1] in (2, 4) and min(v[0].shape[-2:]) >= 3, lambda v, m: F.conv2d(v[0], m.W4(2, v[0].shape[1] // 2, 2), None, groups=2), "groups=2")
     add("dropout_eval", 1, f1, lambda v, m: F.dropout(v[0], 0.5, training=False), "train=0")
+    # ---- argument classes in which the direct driver found deviations: are they reachable through the exporter?
+    add("subtract_alias_pyint_alpha", 1, f1, lambda v, m: torch.subtract(v[0], 3, alpha=2), "alias/pyint-rhs/alpha")
+    add("narrow_negative_start", 1, lambda v: v[0].dim() >= 1 and v[0].shape[0] >= 2, lambda v, m: v[0].narrow(0, -2, 2), "negative-start")
+    add("roll_negative_dim", 1, lambda v: v[0].dim() >= 2, lambda v, m: torch.roll(v[0], 1, -1), "negative-dim")
+    add("argmax_flat_keepdim", 1, r2, lambda v, m: torch.argmax(v[0], keepdim=True), "dim=None/keepdim")
+    add("mean_dtype_f64", 1, lambda v: v[0].dtype == torch.float32, lambda v, m: torch.mean(v[0], dtype=torch.float64), "full/dtype=f64")
+    add("mean_dim_dtype_int", 1, lambda v: isi(v[0]) and v[0].dim() >= 1, lambda v, m: torch.mean(v[0], -1, dtype=torch.float32), "int/dtype=f32")
+    add("chunk_fewer", 1, lambda v: v[0].dim() >= 1 and v[0].shape[-1] == 4, lambda v, m: torch.chunk(v[0], 3, dim=-1)[1], "fewer-chunks")
+    add("squeeze_dim_noop", 1, lambda v: v[0].dim() >= 1 and v[0].shape[0] != 1, lambda v, m: v[0].squeeze(0), "dim-not-one")
+    add("broadcast_to_minus1", 1, lambda v: v[0].dim() >= 1, lambda v, m: torch.broadcast_to(v[0].unsqueeze(0), (2,) + (-1,) * v[0].dim()), "minus1")
+    add("elu_scaled", 1, f1, lambda v, m: torch.ops.aten.elu(v[0], 1.0, 1.5, 0.5), "alpha-scale-input_scale")
+    add("atan2_y0", 1, f1, lambda v, m: torch.atan2(torch.zeros_like(v[0]), -torch.abs(v[0]) - 1.0), "y=0-x<0")
+    add("any_empty", 1, lambda v: v[0].dim() >= 1, lambda v, m: torch.any(v[0][:0] > 0), "size0")
+    add("copy_broadcast", 1, lambda v: v[0].dim() >= 2, lambda v, m: torch.zeros_like(v[0]).copy_(v[0][0]), "broadcast-src")
+    add("cat_legacy_empty", 1, lambda v: v[0].dim() == 2 and v[0].dtype == torch.float32, lambda v, m: torch.cat([torch.zeros(0), v[0]], dim=0), "legacy-empty-1d")
+    add("isclose_inf", 1, f1, lambda v, m: torch.isclose(v[0] / 0.0, v[0] / 0.0, equal_nan=True), "nan-inf/equal_nan")
+    add("avg_pool2d_divisor", 1, lambda v: isf(v[0]) and v[0].dim() == 4 and min(v[0].shape[-2:]) >= 4, lambda v, m: F.avg_pool2d(v[0], 2, divisor_override=3), "divisor_override")
+    add("scatter_reduce_mean", 1, r1, lambda v, m: torch.zeros_like(v[0]).scatter_reduce(-1, torch.zeros_like(v[0], dtype=torch.int64), v[0], "mean"), "reduce=mean")
+    add("linalg_norm_keepdim_flat", 1, r2, lambda v, m: torch.linalg.vector_norm(v[0], keepdim=True), "dim=None/keepdim")
+    add("signbit_0d", 1, f1, lambda v, m: torch.signbit(v[0].sum()), "0-d")
+    add("flatten_0d_sum", 1, f1, lambda v, m: torch.flatten(v[0].sum()), "0-d")
     _T = T
     return T
 
@@ -245,7 +266,7 @@ DISCONTINUOUS = {"floor", "ceil", "round", "sign", "gt_pyfloat", "le_pyint", "eq
                  "remainder_pyint", "remainder_neg_pyfloat", "fmod_pyfloat", "floor_divide_abs1", "remainder_abs1", "argmax", "argmin_keepdim",
                  "argmax_flat", "all_dim", "any_all", "logical_not", "logical_and", "logical_or", "gather_argsort", "relu", "relu6", "hardtanh",
                  "clamp", "clamp_min", "clamp_max", "clamp_int_bounds", "leaky_relu", "maximum", "minimum", "max_dim", "min_dim_keepdim",
-                 "hardswish", "hardsigmoid", "to_float", "bitwise_and_bool"}
+                 "hardswish", "hardsigmoid", "to_float", "bitwise_and_bool", "isclose_inf", "any_empty", "signbit_0d", "argmax_flat_keepdim"}
 
 
 def _bc(a, b):
@@ -433,7 +454,10 @@ def run_module(index, seed):
             rst, rgot = runner.ref_run(proto, feeds)
         if rst == "ok" and len(rgot) == len(want) and all(_diff(a_, w.numpy()) is None for a_, w in zip(rgot, want)):
             return {"status": "e2e_disputed", "ops": ops, "info": f"ORT {stt}: {str(got)[:160]}; reference agrees with torch"}
-        return {"status": "violation", "ops": ops, "viol": viol("invalid_graph", "+".join(ops), f"ORT {stt} failure: {str(got)[:300]}")}
+        loc = _localise(prog, n_in, vals)
+        if loc is not None:
+            return {"status": "violation", "ops": ops, "viol": viol(loc[1], loc[0], loc[2])}
+        return {"status": "violation", "ops": ops, "viol": viol("invalid_graph", "+".join(ops), f"ORT {stt} failure: {str(got)[:300]}".replace("\n", " "))}
     if len(got) != len(want):
         return {"status": "violation", "ops": ops, "viol": viol("structure", "+".join(ops), f"{len(got)} outputs vs {len(want)}")}
     bad = None
@@ -456,6 +480,40 @@ def run_module(index, seed):
     if rst == "ok" and len(rgot) == len(want) and _diff(rgot[k], want_np[k]) is None:
         return {"status": "e2e_disputed", "ops": ops, "info": f"{ops[k]}: ORT {text}; reference agrees with torch"}
     return {"status": "violation", "ops": ops, "viol": viol(kind, ops[k], text)}
+
+
+def _localise(prog, n_in, vals):
+    """The whole model does not load/run: export growing prefixes and return (op, kind, text) for the first prefix that
+    deviates in any way (a silent shape/value deviation upstream is the usual cause of a failure downstream)."""
+    import logging
+    import warnings
+
+    import torch
+
+    for k in range(1, len(prog) + 1):
+        mod = _make_module(prog[:k], n_in).eval()
+        try:
+            with torch.no_grad():
+                want = mod(*[v.clone() for v in vals])
+            logging.disable(logging.WARNING)
+            with warnings.catch_warnings():
+                warnings.simplefilter("ignore")
+                p = torch.onnx.export(mod, tuple(v.clone() for v in vals), dynamo=True, verbose=False).model_proto
+        except Exception:
+            return None
+        finally:
+            logging.disable(logging.NOTSET)
+        feeds = {i.name: v.numpy() for i, v in zip(p.graph.input, vals)}
+        st_, got = runner.ort_run(p, feeds)
+        if st_ in ("load", "run"):
+            return prog[k - 1][0], "invalid_graph", f"ORT {st_} failure: {str(got)[:300]}".replace("\n", " ")
+        if st_ != "ok":
+            return None
+        for j, (g_, w) in enumerate(zip(got, want)):
+            d = _diff(g_, w.numpy())
+            if d:
+                return prog[j][0], d[0], d[1] + " (found while localising a load/run failure of the whole module)"
+    return None
 
 
 def _diff(g_, w):
